@@ -179,3 +179,5 @@ def run(ctx):
     for f in e4.findings:
         ctx.ob("R02.unique", f.construct, f.ok, f.site, f.detail)
     ctx.require("R02.unique", len(e4.findings), 8, "registry rule instances")
+
+EXPLANATION += ' Batch 6: protocol options other than the keep-alive pings are reported (size limits apply to outgoing frames).'
